@@ -390,7 +390,14 @@ def run_stft_guard(cfg):
         ob += 1
         base = dict(kind='stft_guard', L=L, S=S, style=style, kaldi=kaldi)
         if res[0] != 'ok':
-            viol.append(dict(base, what='mid-utterance call not refused with ValueError', detail=str(res[1])))
+            wv = {}
+            try:
+                m = ctx.model()
+                wv = dict(N=m.eval(z3.Int('N'), True).as_long(), bl=m.eval(z3.Int('bl'), True).as_long())
+            except BaseException as e:
+                if not isinstance(e, Exception) and not isinstance(e, symex.Abort):
+                    raise
+            viol.append(dict(base, what='mid-utterance call not refused with ValueError', detail=str(res[1]), **wv))
             continue
         s = ctx.solver
         s.push()
@@ -656,7 +663,14 @@ def run_si_guard(cfg):
         ob += 1
         base = dict(kind='si_guard', S=S, M=M, D=D, style=style)
         if res[0] != 'ok':
-            viol.append(dict(base, what='mid-utterance call not refused with ValueError', detail=str(res[1])))
+            wv = {}
+            try:
+                m = ctx.model()
+                wv = dict(N=m.eval(z3.Int('N'), True).as_long(), bl=m.eval(z3.Int('bl'), True).as_long())
+            except BaseException as e:
+                if not isinstance(e, Exception) and not isinstance(e, symex.Abort):
+                    raise
+            viol.append(dict(base, what='mid-utterance call not refused with ValueError', detail=str(res[1]), **wv))
             continue
         s = ctx.solver
         s.push()
@@ -773,7 +787,7 @@ def replay(w):
         return {'reproduced': False, 'detail': 'bit-identical to a fresh instance for alternating dtypes'}
     if k.startswith('stft'):
         L, S, style, kaldi = w['L'], w['S'], w['style'], w['kaldi']
-        return _replay_with(k, lambda: sc.real_stft(L, S, style, kaldi), range(0, 3 * L + 2), [2 * L + 3, L, L // 2 + 1, 3 * L], rng)
+        return _replay_with(k, lambda: sc.real_stft(L, S, style, kaldi), range(0, 3 * L + 2), [2 * L + 3, L, L // 2 + 1, 3 * L], rng, w)
     style = w['style']
     last = None
     for S in (w['S'], 9, 16):
@@ -781,27 +795,33 @@ def replay(w):
         c0 = mk()
         lens = sorted(set(list(range(0, 12)) + [c0._frame_shift // 2 - 1, c0._frame_shift // 2, c0._translation, c0._translation + 1,
                                                 c0._frame_length, c0._dft_size, c0._dft_size + 3]))
-        last = _replay_with(k, mk, [n for n in lens if n >= 0], [c0._dft_size + 7, 3 * c0._frame_shift], rng)
+        last = _replay_with(k, mk, [n for n in lens if n >= 0], [c0._dft_size + 7, 3 * c0._frame_shift], rng, w)
         if last['reproduced']:
             return last
     return last
 
 
-def _replay_with(k, mk, lens, nxt, rng):
+def _replay_with(k, mk, lens, nxt, rng, w=None):
     import numpy as np
     c = mk()
     if k.endswith('guard'):
-        c.compute_chunk(rng.randn(3))
         from pydrobert.speech.compute import frame_by_frame_calculation
-        for name, call in (('compute_full', lambda: c.compute_full(rng.randn(40))),
-                           ('frame_by_frame_calculation', lambda: frame_by_frame_calculation(c, rng.randn(40)))):
-            try:
-                call()
-                return {'reproduced': True, 'detail': '%s did not raise while started' % name}
-            except ValueError:
-                pass
-            except Exception as e:
-                return {'reproduced': True, 'detail': '%s raised %s instead of ValueError' % (name, type(e).__name__)}
+        w = w or {}
+        for chunk in ([w['bl']] if 'bl' in w else []) + [3]:        # the witness' buffered length first
+            for n in ([w['N']] if 'N' in w else []) + [40, 0, 1]:    # ... and its signal length
+                c = mk()
+                c.compute_chunk(rng.randn(chunk))
+                if not c.started:
+                    continue
+                for name, call in (('compute_full', lambda: c.compute_full(rng.randn(n))),
+                                   ('frame_by_frame_calculation', lambda: frame_by_frame_calculation(c, rng.randn(n)))):
+                    try:
+                        call()
+                        return {'reproduced': True, 'detail': '%s of a %d-sample signal did not raise while started (%d samples buffered)' % (name, n, chunk)}
+                    except ValueError:
+                        pass
+                    except Exception as e:
+                        return {'reproduced': True, 'detail': '%s raised %s instead of ValueError' % (name, type(e).__name__)}
         return {'reproduced': False, 'detail': 'guards raise ValueError on the real library'}
     for N1 in lens:
         x1 = rng.randn(N1)
